@@ -34,7 +34,7 @@ for _f in sorted(_glob.glob(_os.path.join(_os.path.dirname(_os.path.abspath(__fi
     CHECKS.update(_ns.get("CHECKS", {}))
 
 # commits in /repo that add verif-tagged hooks (MANIFEST.hooks.source_commits)
-HOOK_COMMITS = []
+HOOK_COMMITS = ['5b415ab', '4cb8b51']
 
 # properties deliberately not claimed, with reason (others default to "not built yet")
 NOT_APPLICABLE = {}
